@@ -25,7 +25,7 @@ MANIFEST = dict(
         "multiset. (C) for every partition into non-empty batches the DataElementIterator state machine makes elements(), element(i), reverse "
         "iteration and batches() yield the same sequence (Data and LabeledData); ++/-- are mutually inverse across batch borders; it += n lands on the "
         "canonical (batch, offset) of p+n for every signed n; batch sizes sum to numberOfElements. (D) LabeledData: createLabeledDataFromRange, "
-        "repartition, splitBatch, splice, splitAtElement (first k pairs stay), append, indexedSubset, reorderElements, transformLabels/Inputs keep inputs "
+        "repartition, splitBatch, splice, splitAtElement (first k pairs stay), append, push_back, indexedSubset, reorderElements, transformLabels/Inputs keep inputs "
         "and labels in the same partitioning and never separate an input from its label. (E) every finite history of repartition / splitBatch / "
         "reorderElements-by-permutation steps on one dataset, and of these plus splitAtElement / append / swap moving elements between two datasets, "
         "preserves well-formedness, non-empty batches and the multiset of (input,label) pairs; in every reachable state the access paths agree. "
@@ -39,7 +39,7 @@ MANIFEST = dict(
         "operation kinds incl. shuffle with the observed permutation, binarySubProblem, oneVersusRest, element-/batch-wise transform, signed iterator "
         "jumps) on unsigned, RealVector, CompressedRealVector and user-struct elements and on WeightedLabeledData under ASan/UBSan, plus an independent in-harness oracle that keeps "
         "a flat std::vector beside every dataset."),
-  note=TRUST + "covered by the correspondence and the oracle only (modelled, no theorem): push_back/subc on LabeledData, "
+  note=TRUST + "covered by the correspondence and the oracle only (modelled, no theorem): the two-result indexedSubset on LabeledData parts (`subc`), "
        "Data(size, element, batchSize) batch layout beyond its sum, shapes after transform; sharing of batches between datasets (shared_ptr) and the storage "
        "layout of sparse batches are not modelled; WeightedLabeledData is covered by the correspondence only (same model, weights checked by the oracle; "
        "ops new/repartition/splitBatch/splitAtElement/splice/append/indexedSubset/shuffle). Findings F1, F9, F10, F13 (findings_proposed/C03.md) make the check print "
